@@ -89,7 +89,10 @@ Fixpoint trace_eqb (a b : list (list out)) : bool :=
   match a, b with [], [] => true | x :: a', y :: b' => outs_eqb x y && trace_eqb a' b' | _, _ => false end.
 
 (* ---- histories with future arguments named by "j-th returned future" ---- *)
-Inductive cop := COp (o : op) | CUnsub (j : N) | CUnreg (j : N) | CCancel (j : N).
+Inductive cop :=
+| COp (o : op) | CUnsub (j : N) | CUnreg (j : N) | CCancel (j : N)
+| CInline (a : cop) (r : op).    (* API call [a]; the router message [r] is delivered re-entrantly from inside
+                                    transport.send() of the request (loopback / in-process router links) *)
 
 Fixpoint index_of (f : N) (l : list N) (i : N) : option N :=
   match l with [] => None | x :: t => if x =? f then Some i else index_of f t (i + 1) end.
@@ -107,12 +110,42 @@ Definition rename (ret : list N) (o : list out) : list out :=
     | x => [x]
     end) o.
 
-Definition resolve (ret : list N) (c : cop) : option op :=
+Fixpoint resolve (ret : list N) (c : cop) : option op :=
   match c with
   | COp o => Some o
   | CUnsub j => match nth_error ret (N.to_nat j) with Some f => Some (AUnsubscribe f) | None => None end
   | CUnreg j => match nth_error ret (N.to_nat j) with Some f => Some (AUnregister f) | None => None end
   | CCancel j => match nth_error ret (N.to_nat j) with Some f => Some (ACancel f) | None => None end
+  | CInline a _ => resolve ret a
+  end.
+
+Definition inline_reply (c : cop) : option op := match c with CInline _ r => Some r | _ => None end.
+
+(* did transport.send() accept a request message (then, and only then, a loopback transport answers inside send) *)
+Definition sent_request (o : list out) : bool :=
+  existsb (fun e => match e with
+                    | Sent (MPublish _ _ _ _ _ _) | Sent (MSubscribe _ _ _ _) | Sent (MUnsubscribe _ _)
+                    | Sent (MCall _ _ _ _ _ _) | Sent (MRegister _ _ _ _) | Sent (MUnregister _ _) => true
+                    | _ => false
+                    end) o.
+Definition is_apiret (e : out) : bool := match e with ApiReturned _ | ApiRaised _ => true | _ => false end.
+
+(* One step of a case.  Because every API path records its request before it calls send() (Model/Session.v: new_request
+   precedes send), a reply delivered from inside send() finds the state that [step] leaves behind: the inline schedule
+   is the history [a; r].  Only the order of what an observer sees differs: the API call returns after the reply was
+   processed, and the callbacks of the future it returns can be attached only then (Twisted fires them at once). *)
+Definition step_case (fl : flavour) (cfg : ucfg) (s : sess) (o : op) (inl : option op) : sess * list out :=
+  let '(s1, o1) := step fl cfg s o in
+  match inl with
+  | Some r =>
+      if sent_request o1 then
+        let '(s2, o2) := step fl cfg s1 r in
+        let newf := returned_of o1 in
+        let mine := fun e => match e with Completed f _ => memN f newf | _ => false end in
+        (s2, filter (fun e => negb (is_apiret e)) o1 ++ filter (fun e => negb (mine e)) o2
+             ++ filter is_apiret o1 ++ filter mine o2)
+      else (s1, o1)
+  | None => (s1, o1)
   end.
 
 Fixpoint run_case (fl : flavour) (cfg : ucfg) (s : sess) (ret : list N) (ops : list cop) : sess * list (list out) :=
@@ -122,7 +155,7 @@ Fixpoint run_case (fl : flavour) (cfg : ucfg) (s : sess) (ret : list N) (ops : l
       match resolve ret c with
       | None => let '(s2, tr) := run_case fl cfg s ret r in (s2, [ApiRaised XNoObject] :: tr)
       | Some o =>
-          let '(s1, o1) := step fl cfg s o in
+          let '(s1, o1) := step_case fl cfg s o (inline_reply c) in
           let ret1 := ret ++ returned_of o1 in
           let '(s2, tr) := run_case fl cfg s1 ret1 r in
           (s2, rename ret1 o1 :: tr)
